@@ -162,6 +162,12 @@ pub enum Op {
         h: SlotId,
         words: usize,
     },
+    /// llg_matcher_compute_ff_tokens into a caller buffer of `len` tokens (shorter than, equal to
+    /// or longer than the forced sequence)
+    CFfInto {
+        h: SlotId,
+        len: usize,
+    },
     /// C20/C17: C constructors and validators fed hostile text; message buffers between canaries
     HostileC {
         what: String,
@@ -300,6 +306,9 @@ pub struct Scenario {
     /// honest commits on a finished engine first roll back a little (keeps runs productive)
     #[serde(default)]
     pub auto_restart: bool,
+    /// step-budget accounting oracle (C14): observe the shared lexer's fuel counter around masks
+    #[serde(default, skip_serializing_if = "std::ops::Not::not")]
+    pub budget_oracle: bool,
 }
 
 #[derive(Clone, Debug, Serialize, Deserialize)]
